@@ -168,6 +168,75 @@ func TestC02(t *testing.T) {
 				v := g.val(ty)
 				out.emit("gen", "c02", []string{cfg, ty.Sexp(), v.Sexp()}, c02Obs(ty, v, h))
 			}
+			if ci == 0 {
+				// values of tens of kilobytes serialized one after the other through ONE type
+				// definition: a longer one (all ones) first, then shorter ones whose encodings
+				// end right behind a chunk boundary - nothing of the first may show in the second
+				bl := &Ty{Kind: "bitlist", N: 1 << 22}
+				bytesL := &Ty{Kind: "list", Elem: &Ty{Kind: "u", N: 1}, N: 1 << 22}
+				ones := func(n int) *Val {
+					v := &Val{Kind: "bits", Bits: make([]bool, n)}
+					for i := range v.Bits {
+						v.Bits[i] = true
+					}
+					return v
+				}
+				sparse := func(n int) *Val {
+					v := &Val{Kind: "bits", Bits: make([]bool, n)}
+					v.Bits[n-1], v.Bits[n/2] = true, true
+					return v
+				}
+				// (bitlists of this size take the model minutes - one list cell per bit, quadratic
+				// packing -, so for them the round trip the theorems state is checked on the
+				// implementation itself: decode(serialize(v)) is v, ValueByteLength is the length)
+				bigVals := []*Val{ones(1<<18 + 2000), sparse(1 << 18), ones(1<<18 + 2000), sparse(1<<18 + 256), ones(1<<18 + 2000), sparse(1<<18 - 1), ones(1 << 18)}
+				bigViews := make([]view.View, len(bigVals))
+				bigData := make([][]byte, len(bigVals))
+				for i, v := range bigVals {
+					bigViews[i], _ = buildView(bl, v)
+				}
+				// all encodings first, back to back (nothing else happens between a long value
+				// and the shorter one that follows it)
+				for i, vw := range bigViews {
+					if vw != nil {
+						bigData[i], _ = serializeView(vw)
+					}
+				}
+				for i, v := range bigVals {
+					vv, vw, data := v, bigViews[i], bigData[i]
+					out.emit("seq", "c02big", []string{cfg, bl.Sexp(), hx(uint64(len(vv.Bits)))}, guard(func() string {
+						if vw == nil || data == nil {
+							return "rt=ERR"
+						}
+						n, err := vw.ValueByteLength()
+						back, err2 := deserialize(bl, data)
+						if err != nil || err2 != nil || n != uint64(len(data)) || len(data) != len(vv.Bits)/8+1 {
+							return "rt=0"
+						}
+						bv := back.(*view.BitListView)
+						if l, err := bv.Length(); err != nil || l != uint64(len(vv.Bits)) || back.HashTreeRoot(h) != vw.HashTreeRoot(h) {
+							return "rt=0"
+						}
+						for i, want := range vv.Bits {
+							if got, err := bv.Get(uint64(i)); err != nil || bool(got) != want {
+								return "rt=0"
+							}
+						}
+						return "rt=1"
+					}))
+				}
+				mk := func(n int, b int64) *Val {
+					v := &Val{Kind: "seq", Seq: make([]*Val, n)}
+					e := &Val{Kind: "n", U: bigInt(b)}
+					for i := range v.Seq {
+						v.Seq[i] = e
+					}
+					return v
+				}
+				for _, v := range []*Val{mk(40000, 255), mk(33000, 0), mk(32768, 1)} {
+					out.emit("seq", "c02", []string{cfg, bytesL.Sexp(), v.Sexp()}, c02Obs(bytesL, v, h))
+				}
+			}
 		})
 	}
 }
